@@ -127,6 +127,8 @@ def run(tier: str) -> int:
     for c in others:
         for v in range(nvar):
             jobs.append((c, v))
+        if nvar < 4 and c["kind"] == "cell" and (c["a"] in DEC_ALT or c["b"] in DEC_ALT):
+            jobs.append((c, 3))        # the decimal operands as decimal.Decimal render data (variable form), in every tier
     for i, c in enumerate(trees):
         jobs.append((c, i % 20))
     res = par.pmap(replay_one, jobs, chunk=256)
